@@ -343,10 +343,11 @@ def sat(t):
 
 def tsat(p):
     """Saturation temperature (deg C) as a function of pressure.  Returns
-    false if called outside its operating range (611.213 Pa <= p <=
-    critical pressure)."""
+    None if called outside its operating range (611.213 Pa <= p <=
+    saturation pressure at the critical temperature, which sat() evaluates
+    to 22.0640000003 MPa, marginally above the nominal critical pressure)."""
 
-    if 611.213 <= p <= pcritical:
+    if 611.213 <= p <= max(pcritical, sat(tcritical)):
 
         beta2 = sqrt(p / pstar4)
         beta = sqrt(beta2)
